@@ -11,7 +11,7 @@ import (
 	"verif/harness/spec"
 )
 
-const ruleC13 = "C01 paths (mostly without functions; with functions for the Set == nil clause) on documents whose leaves are pairwise distinct; for every accessor index i (all when <= 6 results, else first/last/4 drawn): a fresh decode, Set(unique sentinel) through accessor i, then diff against a deep copy of the original with exactly SPEC's predicted location replaced; Get() returns the sentinel; a direct in-place update of the slot is visible through Get(). " +
+const ruleC13 = "C01 paths (mostly without functions; with functions for the Set == nil clause) on documents whose leaves are pairwise distinct; for every accessor index i (all when <= 6 results, else first/last/4 drawn): a fresh decode, Set(sentinel) through accessor i (the sentinel is a string, a number, null, an object, an array, an EMPTY non-nil array or object, or a container holding empty containers and null), then diff against a deep copy of the original with exactly SPEC's predicted location replaced; Get() returns the sentinel; a direct in-place update of the slot is visible through Get(). " +
 	"Then a drawn history (<= 10 operations) of Set-through-accessor / direct-update on one document, checked after every step against a shadow copy (accessors below an overwritten location are retired, as README says). " +
 	"Set == nil <=> the result is not a location (root, function output). Non-trivial: >= 2 accessors at different locations (or a duplicated location) at depth >= 2. Distinct = distinct (path, document, mode)."
 
@@ -228,10 +228,26 @@ func checkC13(c *Case, st *Stats) string {
 		if got := a.Get(); got != live {
 			return fmt.Sprintf("after a direct update of %s, accessor %d Get() = %s, want %q", locString(node.Loc), i, JSONString(got), live)
 		}
+		// what is Set varies: scalars, null, containers, EMPTY containers (non-nil, as json.Unmarshal
+		// makes them) alone and inside other containers - the location must hold exactly that
 		sentinel := interface{}(fmt.Sprintf("SENTINEL-%d", i))
-		if i%3 == 2 {
+		switch (i + len(c.Path)) % 8 {
+		case 1:
 			sentinel = map[string]interface{}{"sentinel": float64(i)}
+		case 2:
+			sentinel = map[string]interface{}{"sentinel": float64(i), "empty": []interface{}{}, "none": nil, "obj": map[string]interface{}{}}
+		case 3:
+			sentinel = []interface{}{}
+		case 4:
+			sentinel = nil
+		case 5:
+			sentinel = []interface{}{float64(i), []interface{}{}, map[string]interface{}{}}
+		case 6:
+			sentinel = float64(i) + 0.5
+		case 7:
+			sentinel = map[string]interface{}{}
 		}
+		st.Class(fmt.Sprintf("set:value-kind-%d", (i+len(c.Path))%8))
 		a.Set(sentinel)
 		expected := gen.DeepCopy(original)
 		setAt(expected, node.Loc, sentinel)
